@@ -521,4 +521,101 @@ func c06Split(c *Ctx, rc recCase, whole mon.Outcome) {
 		}
 	}
 	c.Count("split-relations-checked", 1)
+	// the same relation as a history on ONE loaded model (weights as initializers): whole
+	// sequence, then the two pieces with the state fed back, then the whole sequence again
+	c06SplitModel(c, rc, s)
+}
+
+func c06SplitModel(c *Ctx, rc recCase, s int) {
+	mask := ^uint64(0) &^ 1 // everything but X is an initializer
+	if rc.h0 != nil {
+		mask &^= 1 << 5
+	}
+	if rc.c0 != nil {
+		mask &^= 1 << 6
+	}
+	req := rc.req
+	if rc.op == "LSTM" {
+		req.OutNames = []string{"o_y", "o_h", "o_c"}
+	}
+	// make initial states graph inputs even when absent in this case: use explicit zero states
+	ins := make([]*ref.T, 6)
+	if rc.op == "LSTM" {
+		ins = make([]*ref.T, 8)
+	}
+	copy(ins, rc.req.Inputs)
+	if ins[5] == nil {
+		ins[5] = ref.New(rc.x.DT, 1, rc.B, rc.H)
+		mask &^= 1 << 5
+	}
+	if rc.op == "LSTM" && ins[6] == nil {
+		ins[6] = ref.New(rc.x.DT, 1, rc.B, rc.H)
+		mask &^= 1 << 6
+	}
+	req.Inputs = ins
+	g, feed := mon.BuildOpModel(req, mon.ModelOpts{InitMask: mask, DynamicIn: true})
+	var outs []string
+	for _, o := range g.Outputs {
+		outs = append(outs, o.Name)
+	}
+	h := mon.NewSession(g.Bytes())
+	if h.Err != nil {
+		c.Violation(rc.op+":split-model-does-not-load", "%v", h.Err)
+		return
+	}
+	run := func(x, h0, c0 *ref.T) []*ref.T {
+		f := map[string]*ref.T{}
+		for k, v := range feed {
+			f[k] = v
+		}
+		f["i0"] = x
+		f["i5"] = h0
+		if rc.op == "LSTM" {
+			f["i6"] = c0
+		}
+		o := h.Run(f, outs)
+		c.Eval(1)
+		if o.Kind != mon.Value {
+			return nil
+		}
+		return o.Vals
+	}
+	var c0 *ref.T
+	if rc.op == "LSTM" {
+		c0 = ins[6]
+	}
+	w1 := run(rc.x, ins[5], c0)
+	if w1 == nil {
+		return // refused through Run: judged elsewhere
+	}
+	p1 := run(sliceSeq(rc.x, 0, s), ins[5], c0)
+	if p1 == nil || len(p1) < 2 {
+		c.Violation(rc.op+":split-first-piece-fails", "one model: whole sequence runs, then the first %d steps do not", s)
+		return
+	}
+	var c1 *ref.T
+	if rc.op == "LSTM" && len(p1) > 2 {
+		c1 = p1[2]
+	}
+	p2 := run(sliceSeq(rc.x, s, rc.S), p1[1], c1)
+	w2 := run(rc.x, ins[5], c0)
+	if p2 == nil || w2 == nil {
+		c.Violation(rc.op+":split-second-piece-fails", "one model: a later Run fails although the first succeeded (split at %d)", s)
+		return
+	}
+	n := rc.B * rc.H
+	near := func(a, b float64) bool { return a == b || math.Abs(a-b) <= 1e-6*(1+math.Abs(b)) }
+	for i := range w1[0].Bits {
+		if w1[0].Bits[i] != w2[0].Bits[i] {
+			c.Violation(rc.op+":second-whole-run-differs", "one model: the whole sequence run again gives another Y (element %d: %v vs %v) | %s", i, w2[0].F(i), w1[0].F(i), trunc(rc.req.Describe(), 300))
+			return
+		}
+	}
+	for i := 0; i < (rc.S-s)*n; i++ {
+		if !near(p2[0].F(i), w1[0].F(s*n+i)) {
+			c.Violation(rc.op+":split-differs-from-whole", "one model, two Runs with the state fed back: Y(second piece) element %d: %v vs whole %v (split at %d of %d) | %s", i, p2[0].F(i), w1[0].F(s*n+i), s, rc.S, trunc(rc.req.Describe(), 300))
+			return
+		}
+	}
+	c.Count("split-relations-checked-through-one-model", 1)
 }
